@@ -38,7 +38,7 @@ enum Expect {
     Rejected,
 }
 
-const KEYS: [&str; 9] = ["name", "description", "k", "K", "meta", "a1", "name_", "Description", "k"];
+const KEYS: [&str; 13] = ["name", "description", "k", "K", "meta", "a1", "name_", "Description", "k", "namespace", "names", "name2", "descriptions"];
 
 fn const_value(d: &mut Dec, depth: u32) -> (Expr, Value) {
     if depth > 0 && d.below(3) == 0 {
@@ -103,7 +103,7 @@ fn strip_newlines(e: &Expr) -> Expr {
 }
 
 fn comment_text(d: &mut Dec) -> String {
-    match d.below(16) {
+    match d.below(19) {
         0 => String::new(),
         1 => " ".into(),
         2 => "/ triple slash".into(),
@@ -115,6 +115,10 @@ fn comment_text(d: &mut Dec) -> String {
         13 => "\u{a0}\u{3000}wide indent".into(),
         14 => format!(" \u{2003}\u{2028}em {}\u{85}", d.below(9)),
         15 => "\u{3000}".into(),
+        // quotes in comments are just characters: an odd number of them, an opening one that is closed lines later
+        16 => " for 19\" racks".into(),
+        17 => format!(" it's \"quoted {} ...", d.below(9)),
+        18 => " ... closed here\" ok".into(),
         3 => "\t padded name \t ".into(),
         4 => " @name: \"not metadata\";".into(),
         5 => " i1 + i2".into(),
@@ -238,8 +242,11 @@ fn build_script(bytes: &[u8]) -> Script {
     };
     emit_comments(&mut d, &mut text, &mut comments, if large { 30 } else { 3 });
     let mut at_line_start = true;
+    // (the key is usually written right behind its `@`, sometimes after a blank)
+    let glue_at = d.below(4) != 3;
     for (i, t) in all.iter().enumerate() {
-        if !at_line_start {
+        let after_at = i > 0 && matches!(all[i - 1], Tok::Fix("@"));
+        if !at_line_start && !(after_at && glue_at) {
             text.push(' ');
         }
         text.push_str(t.text());
